@@ -164,7 +164,9 @@ func RunDaemon() {
 			ui.Info("Received SIGTERM signal, exiting...")
 			return nil
 		}, func(err error) {
-			defer close(sig)
+			// sig stays registered with signal.Notify until the process exits: closing it here
+			// would make a second SIGTERM/SIGINT panic the process ("send on closed channel")
+			// while the fan controllers are still restoring their fans.
 			cancel()
 		})
 	}
